@@ -58,11 +58,17 @@ _TLAPS = {
 LEVEL_TEXT["C02"] += (" One listed known finding (known_findings.json D12: sequences that store an alternative bit pattern compare and hash by stored bits) "
                       "is reported as KNOWN-FINDING by its own tagged scenario and suppresses nothing else.")
 LEVEL_TEXT["C05"] = LEVEL_TEXT["C05"].replace("all 7x256 codec cells", "all 9x256 codec cells (seven built-in codecs and two derived in the harness)")
+_TLAPS_FOR = {
+    ("C01", "TransformLaws"): " Unbounded (TLAPS, spec/tlaps/TransformLaws.tla, MapLeftInverse): a per-symbol encoding with a left inverse (display then parse) round-trips on sequences of any length.",
+    ("C18", "TransformLaws"): " Unbounded (TLAPS, spec/tlaps/TransformLaws.tla, MapLeftInverse): a per-symbol encoding with a left inverse (encode then decode) round-trips on sequences of any length.",
+    ("C02", "ColexNumeric"): " Unbounded (TLAPS, spec/tlaps/ColexNumeric.tla, thorough tier): packing is injective -- equal packed integers mean equal symbols, for any width and length.",
+    ("C04", "ColexNumeric"): " Unbounded (TLAPS, spec/tlaps/ColexNumeric.tla, thorough tier): the packed integer of k symbols is below 2^(k*BITS) and determines the symbols, for any width and length.",
+}
 from plan import PLAN as _PLAN
 for _pid, _pl in _PLAN.items():
     for _tier in ("quick", "thorough"):
         for _m in _pl.get("tlaps", {}).get(_tier, []):
-            LEVEL_TEXT[_pid] += _TLAPS[_m]
+            LEVEL_TEXT[_pid] += _TLAPS_FOR.get((_pid, _m), _TLAPS[_m])
     if any(len(g) > 2 for g in _pl.get("gen", {}).get("quick", [])):
         LEVEL_TEXT[_pid] += _SYS
     if any(t[0].startswith("giant_") for t in _pl.get("traces", [])):
